@@ -438,20 +438,6 @@ def nested_sets(module, tn):
     return out
 
 
-def is_alias_of(module, name, kind):
-    """the definition is a (chain of) plain reference(s) ending in a type of the given kind"""
-    t = module["asts"].get(name)
-    if t is None or t["k"] != "REF":
-        return False
-    return resolve(module, t)["k"] == kind
-
-
-def uses_alias_of(module, tn, kind):
-    if is_alias_of(module, tn, kind):
-        return True
-    return any(n["k"] == "REF" and is_alias_of(module, n["name"], kind) for n, _ in walk(module, module["asts"][tn], {tn}))
-
-
 def has_node(module, tn, pred):
     return any(pred(n) for n, _ in walk(module, module["asts"][tn], {tn}))
 
@@ -464,10 +450,6 @@ def has_comp(module, tn, pred):
     return False
 
 
-NULL_CALL_FRAMES = ("uper_encode", "oer_encode", "SEQUENCE_encode_uper", "SEQUENCE_encode_oer", "CHOICE_encode_uper", "CHOICE_encode_oer",
-                    "SET_OF_encode_uper", "SET_OF_encode_oer", "SET_OF__encode_sorted", "uper_open_type_put", "oer_open_type_put")
-
-
 def classify(module, typename, syntax, status, stderr="", facts=()):
     """one non-OK outcome of the round-trip battery -> id of the known finding whose predicate it satisfies, or None.
     status: "NL" (BASIC-XER newline), "ENCFAIL:<errno>", "DEC:<rc>:<consumed>/<produced>", "NEQ", "CMP", "CRASH", "HANG";
@@ -477,37 +459,17 @@ def classify(module, typename, syntax, status, stderr="", facts=()):
         return "C01-xer-trailing-newline"
     per_oer = syntax in ("cper", "coer")
     # asn_OP_SET has no uper/oer encoder and decoder.  At the top level asn_encode answers ENOENT.  Below the top level
-    # the VALUE must contain a SET value (fact set_nested): callers that test the pointer (SEQUENCE_encode_oer root
-    # members, uper_encode / oer_encode entered through an open type of an extension addition) fail with EBADF,
-    # the others call the NULL pointer.
+    # the VALUE must contain a SET value (fact set_nested): every caller tests the pointer and fails with EBADF.
     if per_oer and status == "ENCFAIL:ENOENT" and top_kind(module, typename) == "SET":
         return "C01-set-no-per-oer"
     if per_oer and status == "ENCFAIL:EBADF" and "set_nested" in facts and nested_sets(module, typename):
         return "C01-set-no-per-oer"
-    if status == "CRASH" and syntax == "cper" and re.search(r"#0 0x[0-9a-f]+ in SET_OF_encode_uper", stderr) \
-            and ("null pointer" in stderr or "SEGV" in stderr) and has_node(module, typename, lambda n: n["k"] == "SET OF") \
-            and ("semi_lb" in facts or "set_nested" in facts or ("choice_nopc" in facts and uses_alias_of(module, typename, "CHOICE"))
-                 or ("enum_nopc" in facts and uses_alias_of(module, typename, "ENUMERATED"))):
-        # an element of a SET OF cannot be UPER-encoded (for one of the known reasons): SET_OF__encode_sorted returns
-        # NULL and SET_OF_encode_uper reads through it
-        return "C01-setof-uper-unchecked-sorted"
-    if per_oer and status == "CRASH" and "set_nested" in facts and nested_sets(module, typename) \
-            and ("SEGV" in stderr or "null pointer" in stderr) and any(f in stderr for f in NULL_CALL_FRAMES):
-        return "C01-set-nested-null-codec"
     if syntax == "cper" and status == "NEQ" and "bits_trail0" in facts:
         return "C01-uper-bitstring-trailing-zero"
     if status == "NEQ" and "bool_dfl_raw" in facts and syntax in ("cper", "xer", "cxer"):
         return "C01-boolean-default-true"
     if syntax == "cper" and status == "ENCFAIL:EBADF" and "semi_lb" in facts:
         return "C01-uper-semiconstrained-lb"
-    # T2 ::= T1 with T1 a CHOICE / ENUMERATED: the VALUE holds a CHOICE / ENUMERATED whose descriptor has no PER constraints
-    if syntax == "cper" and status == "ENCFAIL:EBADF" and "choice_nopc" in facts and uses_alias_of(module, typename, "CHOICE"):
-        return "C01-choice-ref-no-per"
-    if syntax == "cper" and status == "ENCFAIL:EBADF" and "enum_nopc" in facts and uses_alias_of(module, typename, "ENUMERATED"):
-        return "C01-enum-ref-no-per"
-    if syntax == "cper" and status == "ENCFAIL:EBADF" and "ustr_nopc" in facts and \
-            has_node(module, typename, lambda n: n["k"] == "REF" and resolve(module, n).get("stype") in ("BMPString", "UniversalString")) :
-        return "C01-string-ref-no-per"
     if syntax == "cper" and status == "NEQ" and "km_map_ovf" in facts and has_node(module, typename, lambda n: n["k"] == "STRING" and n["stype"] == "PrintableString" and not n["cons"]):
         return "C01-uper-printablestring-default-bits"
     if status == "CMP" and "setof_dfl" in facts and syntax in ("cper", "coer", "xer", "cxer"):
